@@ -28,7 +28,12 @@
 (* universe, tabulated in CodegenMC!NameTable and checked at harness start.*)
 (*                                                                         *)
 (*   object   [name, title, key, props : Seq(property)]                    *)
-(*   property [name, title, key, tid, ref, reftitle]   ref # "" iff "ref"  *)
+(*   property [name, title, key, tid, ref, reftitle]                       *)
+(*            tid = the type_id, ref = the id written next to it in the    *)
+(*            type mapping ("" = none): the referenced object's name when  *)
+(*            tid = "ref"; with any other type ID an id the type carries   *)
+(*            itself (an inline object type carries its ID), which says    *)
+(*            nothing about the field's type (Carried).                    *)
 (*   args     [form : "no_ignore" | "with_ignore", ign : name]             *)
 (*                                                                         *)
 (* An OBSERVED OUTPUT is what go/parser extracts from typedef_output.go:   *)
@@ -62,7 +67,7 @@ NameOf(x) == x.name
 WFProp(p) ==
     /\ p.name \notin GoKeywords /\ p.name # ""
     /\ p.tid \in TypeIDs
-    /\ (p.tid = "ref") <=> (p.ref # "")
+    /\ (p.tid = "ref") => (p.ref # "")        \* a reference names its target; any type may carry an id
     /\ p.ref \notin GoKeywords
 
 \* "object and property names are valid identifiers": identifiers, pairwise distinct as the
@@ -82,6 +87,9 @@ Live(doc, args) == {i \in DOMAIN doc : ~Ignored(doc[i], args)}
 \* statement: "typed int64/float64 for integer/float, the referenced object's name for
 \* references and the type ID otherwise".  "The referenced object's name" is satisfied by the
 \* name as written and by the name of the struct generated for it (title-cased).
+\* What makes a property a reference is its TYPE ID, not the presence of an id: a type other
+\* than "ref" that carries an id (type_id: object, id: Inner) is typed by its type ID.
+Carried(p) == p.tid # "ref" /\ p.ref # ""
 GoTypes(p) ==
     CASE p.tid = "integer" -> {"int64"}
       [] p.tid = "float"   -> {"float64"}
@@ -191,11 +199,12 @@ Verdict(doc, args, out) ==
        ELSE IF unmatched # {} THEN "wrong_field_type"   \* structs of one key with their fields swapped
        ELSE "ok"
 
-\* detail of a wrong_field_type verdict: the type ID of the first mistyped property of the
-\* diagnosed pair
-WrongTypeOf(doc, args, out) ==
+\* detail of a wrong_field_type verdict: the first mistyped property of the diagnosed pair -
+\* its type ID, and whether it carries an id of its own (an id taken for a reference)
+NoProp == [name |-> "", title |-> "", key |-> "", tid |-> "", ref |-> "", reftitle |-> ""]
+Mistyped(doc, args, out) ==
     LET d == Diagnosed(doc, args, out) IN
-    IF d = <<0, 0>> THEN ""
+    IF d = <<0, 0>> THEN NoProp
     ELSE LET o == doc[d[1]]
              s == out[d[2]]
              off == {k \in DOMAIN o.props : /\ ~TypeFree(o.props[k])
@@ -203,7 +212,9 @@ WrongTypeOf(doc, args, out) ==
                                                   /\ s.fields[m].key = o.props[k].key
                                                   /\ s.fields[m].tag = o.props[k].name
                                                   /\ s.fields[m].type \notin GoTypes(o.props[k])}
-         IN IF off = {} THEN "" ELSE o.props[CHOOSE k \in off : \A y \in off : k <= y].tid
+         IN IF off = {} THEN NoProp ELSE o.props[CHOOSE k \in off : \A y \in off : k <= y]
+WrongTypeOf(doc, args, out) == Mistyped(doc, args, out).tid
+WrongTypeCarriesId(doc, args, out) == Carried(Mistyped(doc, args, out))
 
 \* the statement does not fix the spelling of struct / field names; a matched struct or field
 \* whose name is not the title-cased identifier is reported as drift, not as a violation
@@ -242,6 +253,18 @@ Emitted(doc, perm, rev, titled) ==
                 LET p == o.props[IF rev THEN n + 1 - m ELSE m]
                 IN [name |-> p.title, key |-> p.key, tag |-> p.name, type |-> TypeText(p, titled)]]]]
 
+\* NOT permitted: a generator that takes every id for a reference (types a property that
+\* carries an id by that id, whatever its type ID) - ModelOK checks that the declarative
+\* reading rejects it
+EmittedIdTyped(doc, perm) ==
+    [j \in 1..Len(perm) |->
+        LET o == doc[perm[j]]
+        IN [name |-> o.title, key |-> o.key,
+            fields |-> [m \in 1..Len(o.props) |->
+                LET p == o.props[m]
+                IN [name |-> p.title, key |-> p.key, tag |-> p.name,
+                    type |-> IF p.ref # "" THEN p.ref ELSE TypeText(p, FALSE)]]]]
+
 \* every emitted struct is one of the structs Gen allows, and there are as many
 InGen(doc, args, out) ==
     /\ Len(out) = Cardinality(Gen(doc, args))
@@ -255,6 +278,18 @@ InGen(doc, args, out) ==
 \* "Running it again on the same input produces byte-identical output": seen[input] is the
 \* first observation (struct sequence and byte hash); every later observation of the same
 \* input must be identical.  seen is a function from input identities to observations.
+\*
+\* The DIRECTORY: the generator writes typedef_output.go into the directory it runs in, where
+\* an earlier run - of the same or of another input (other arguments, another document) - may
+\* have left that file.  The statement makes the output a function of the INPUT ("for every
+\* schema file ... emits ... exactly one struct per non-ignored object"; "the same input
+\* produces byte-identical output"): the input is the schema file and the arguments, the
+\* previous content of the directory is no part of it.  So Observed / ObsAccepts / ObsRecord
+\* do not take the directory: an observation made over an existing output file must meet the
+\* contract and be identical to the observation of the same input in a fresh directory.  The
+\* machines carry the directory's content (the input whose output the file holds, NoFile in a
+\* fresh directory) only to enumerate / to name such histories.
+NoFile == [doc |-> <<>>, args |-> [form |-> "fresh", ign |-> ""]]
 NoObs == <<>>
 Observed(seen, inp) == inp \in DOMAIN seen
 ObsAccepts(seen, inp, obs) == Observed(seen, inp) => seen[inp] = obs
